@@ -17,3 +17,130 @@ package stream
 //@   requires d >= 1 && m >= 1 ==> (d-1)*m <= 9223372036854775807
 //@   domain inI64(tdiv(v*m, d))
 //@   ensures result == tdiv(v*m, d)
+
+// C22: remuxing keeps exactly the kept NAL units / OBUs, in order, unaltered.
+// keep(k): element k survives the filter; cnt(k): number of kept elements among the first k.
+
+//@ func unitRemuxerAV1
+//@   property C22
+//@   requires payload != nil && dyntype(payload) == typetag(unit.PayloadAV1)
+//@   requires forall(k, 0, len(tu()), len(el(k)) >= 1)
+//@   def tu() [][]byte = payload.(unit.PayloadAV1)
+//@   def el(k int) []byte = payload.(unit.PayloadAV1)[k]
+//@   def keep(k int) bool = (el(k)[0] >> 3) & 15 != av1.OBUTypeTemporalDelimiter
+//@   def cnt(k int) int = rec 0 ; cnt(k) + b2i(keep(k))
+//@   lemma bounds(a int) induction a from 0: cnt(a) >= 0 && cnt(a) <= a
+//@   lemma mono(a int, b int) induction b from a: cnt(a) <= cnt(b)
+//@   loop 1 invariant 0 <= _i && _i <= len(tu) && n == cnt(_i)
+//@   loop 2 invariant 0 <= _i && _i <= len(tu) && i == cnt(_i) && n == cnt(len(tu)) && len(filteredTU) == n
+//@   loop 2 invariant forall(k, 0, _i, keep(k) ==> filteredTU[cnt(k)] == el(k))
+//@   ensures [empty] cnt(len(tu())) == 0 ==> result == nil
+//@   ensures [type] cnt(len(tu())) > 0 ==> dyntype(result) == typetag(unit.PayloadAV1) && len(result.(unit.PayloadAV1)) == cnt(len(tu()))
+//@   ensures [kept-in-order] cnt(len(tu())) > 0 ==> forall(k, 0, len(tu()), keep(k) ==> result.(unit.PayloadAV1)[cnt(k)] == el(k))
+
+//@ func unitRemuxerH264
+//@   property C22
+//@   requires forma != nil && dyntype(forma) == typetag(*format.H264)
+//@   requires payload != nil && dyntype(payload) == typetag(unit.PayloadH264)
+//@   requires forall(k, 0, len(au()), len(el(k)) >= 1)
+//@   def au() [][]byte = payload.(unit.PayloadH264)
+//@   def el(k int) []byte = payload.(unit.PayloadH264)[k]
+//@   def typ(k int) int = el(k)[0] & 0x1F
+//@   def keep(k int) bool = typ(k) != h264.NALUTypeSPS && typ(k) != h264.NALUTypePPS && typ(k) != h264.NALUTypeAccessUnitDelimiter
+//@   def cnt(k int) int = rec 0 ; cnt(k) + b2i(keep(k))
+//@   def key(k int) bool = rec false ; key(k) || typ(k) == h264.NALUTypeIDR
+//@   def params() bool = forma.(*format.H264).SPS != nil && forma.(*format.H264).PPS != nil
+//@   def pre(k int) int = ite(key(k) && params(), 2, 0)
+//@   lemma bounds(a int) induction a from 0: cnt(a) >= 0 && cnt(a) <= a
+//@   lemma mono(a int, b int) induction b from a: cnt(a) <= cnt(b)
+//@   loop 1 invariant 0 <= _i && _i <= len(au) && isKeyFrame == key(_i) && n == pre(_i) + cnt(_i)
+//@   loop 2 invariant 0 <= _i && _i <= len(au) && isKeyFrame == key(len(au)) && i == pre(len(au)) + cnt(_i) && n == pre(len(au)) + cnt(len(au)) && len(filteredAU) == n
+//@   loop 2 invariant pre(len(au)) == 2 ==> filteredAU[0] == old(forma.(*format.H264).SPS) && filteredAU[1] == old(forma.(*format.H264).PPS)
+//@   loop 2 invariant forall(k, 0, _i, keep(k) ==> filteredAU[pre(len(au)) + cnt(k)] == el(k))
+//@   ensures [type] result != nil && dyntype(result) == typetag(unit.PayloadH264)
+//@   ensures [length] len(result.(unit.PayloadH264)) == pre(len(au())) + cnt(len(au()))
+//@   ensures [parameters-first] pre(len(au())) == 2 && cnt(len(au())) + 2 > 0 ==> result.(unit.PayloadH264)[0] == old(forma.(*format.H264).SPS) && result.(unit.PayloadH264)[1] == old(forma.(*format.H264).PPS)
+//@   ensures [kept-in-order] forall(k, 0, len(au()), keep(k) ==> result.(unit.PayloadH264)[pre(len(au())) + cnt(k)] == el(k))
+
+//@ func unitRemuxerH265
+//@   property C22
+//@   requires forma != nil && dyntype(forma) == typetag(*format.H265)
+//@   requires payload != nil && dyntype(payload) == typetag(unit.PayloadH265)
+//@   requires forall(k, 0, len(au()), len(el(k)) >= 1)
+//@   def au() [][]byte = payload.(unit.PayloadH265)
+//@   def el(k int) []byte = payload.(unit.PayloadH265)[k]
+//@   def typ(k int) int = (el(k)[0] >> 1) & 0x3F
+//@   def keep(k int) bool = typ(k) != h265.NALUType_VPS_NUT && typ(k) != h265.NALUType_SPS_NUT && typ(k) != h265.NALUType_PPS_NUT && typ(k) != h265.NALUType_AUD_NUT
+//@   def cnt(k int) int = rec 0 ; cnt(k) + b2i(keep(k))
+//@   def key(k int) bool = rec false ; key(k) || typ(k) == h265.NALUType_IDR_W_RADL || typ(k) == h265.NALUType_IDR_N_LP || typ(k) == h265.NALUType_CRA_NUT
+//@   def params() bool = forma.(*format.H265).VPS != nil && forma.(*format.H265).SPS != nil && forma.(*format.H265).PPS != nil
+//@   def pre(k int) int = ite(key(k) && params(), 3, 0)
+//@   lemma bounds(a int) induction a from 0: cnt(a) >= 0 && cnt(a) <= a
+//@   lemma mono(a int, b int) induction b from a: cnt(a) <= cnt(b)
+//@   loop 1 invariant 0 <= _i && _i <= len(au) && isKeyFrame == key(_i) && n == pre(_i) + cnt(_i)
+//@   loop 2 invariant 0 <= _i && _i <= len(au) && isKeyFrame == key(len(au)) && i == pre(len(au)) + cnt(_i) && n == pre(len(au)) + cnt(len(au)) && len(filteredAU) == n
+//@   loop 2 invariant pre(len(au)) == 3 ==> filteredAU[0] == old(forma.(*format.H265).VPS) && filteredAU[1] == old(forma.(*format.H265).SPS) && filteredAU[2] == old(forma.(*format.H265).PPS)
+//@   loop 2 invariant forall(k, 0, _i, keep(k) ==> filteredAU[pre(len(au)) + cnt(k)] == el(k))
+//@   ensures [type] result != nil && dyntype(result) == typetag(unit.PayloadH265)
+//@   ensures [length] len(result.(unit.PayloadH265)) == pre(len(au())) + cnt(len(au()))
+//@   ensures [parameters-first] pre(len(au())) == 3 ==> result.(unit.PayloadH265)[0] == old(forma.(*format.H265).VPS) && result.(unit.PayloadH265)[1] == old(forma.(*format.H265).SPS) && result.(unit.PayloadH265)[2] == old(forma.(*format.H265).PPS)
+//@   ensures [kept-in-order] forall(k, 0, len(au()), keep(k) ==> result.(unit.PayloadH265)[pre(len(au())) + cnt(k)] == el(k))
+
+// C22: the parameter sets handed to the description update are the most recent ones seen in-band.
+// cur*(k): value of the running local after k NAL units; last*(k): most recent in-band parameter set
+// (or the one of the description when none was seen); upd(k): whether an update is pending.
+
+//@ func formatUpdaterH264
+//@   property C22
+//@   requires outFormat != nil && dyntype(outFormat) == typetag(*format.H264)
+//@   requires payload != nil && dyntype(payload) == typetag(unit.PayloadH264)
+//@   requires forall(k, 0, len(au()), len(el(k)) >= 1)
+//@   def au() [][]byte = payload.(unit.PayloadH264)
+//@   def el(k int) []byte = payload.(unit.PayloadH264)[k]
+//@   def typ(k int) int = el(k)[0] & 0x1F
+//@   def sps0() []byte = outFormat.(*format.H264).SPS
+//@   def pps0() []byte = outFormat.(*format.H264).PPS
+//@   def curSPS(k int) []byte = rec sps0() ; ite(typ(k) == h264.NALUTypeSPS && !beq(el(k), curSPS(k)), el(k), curSPS(k))
+//@   def curPPS(k int) []byte = rec pps0() ; ite(typ(k) == h264.NALUTypePPS && !beq(el(k), curPPS(k)), el(k), curPPS(k))
+//@   def lastSPS(k int) []byte = rec sps0() ; ite(typ(k) == h264.NALUTypeSPS, el(k), lastSPS(k))
+//@   def lastPPS(k int) []byte = rec pps0() ; ite(typ(k) == h264.NALUTypePPS, el(k), lastPPS(k))
+//@   def upd(k int) bool = rec false ; upd(k) || (typ(k) == h264.NALUTypeSPS && !beq(el(k), curSPS(k))) || (typ(k) == h264.NALUTypePPS && !beq(el(k), curPPS(k)))
+//@   lemma recent(k int) induction k from 0: beq(curSPS(k), lastSPS(k)) && beq(curPPS(k), lastPPS(k))
+//@   lemma unchanged(k int) induction k from 0: !upd(k) ==> curSPS(k) == sps0() && curPPS(k) == pps0()
+//@   loop 1 invariant 0 <= _i && _i <= len(au) && sps == curSPS(_i) && pps == curPPS(_i) && update == upd(_i)
+//@   assert-call updateOutDesc: upd(len(au)) && beq(sps, lastSPS(len(au))) && beq(pps, lastPPS(len(au)))
+//@   ensures [updates-iff-changed] called(updateOutDesc) == b2i(upd(len(au())))
+//@   ensures [no-update-means-current] !upd(len(au())) ==> beq(sps0(), lastSPS(len(au()))) && beq(pps0(), lastPPS(len(au())))
+
+//@ func formatUpdaterH264$1
+//@   property C22
+//@   ensures formatH264.SPS == old(sps) && formatH264.PPS == old(pps)
+
+//@ func formatUpdaterH265
+//@   property C22
+//@   requires outFormat != nil && dyntype(outFormat) == typetag(*format.H265)
+//@   requires payload != nil && dyntype(payload) == typetag(unit.PayloadH265)
+//@   requires forall(k, 0, len(au()), len(el(k)) >= 1)
+//@   def au() [][]byte = payload.(unit.PayloadH265)
+//@   def el(k int) []byte = payload.(unit.PayloadH265)[k]
+//@   def typ(k int) int = (el(k)[0] >> 1) & 0x3F
+//@   def vps0() []byte = outFormat.(*format.H265).VPS
+//@   def sps0() []byte = outFormat.(*format.H265).SPS
+//@   def pps0() []byte = outFormat.(*format.H265).PPS
+//@   def curVPS(k int) []byte = rec vps0() ; ite(typ(k) == h265.NALUType_VPS_NUT && !beq(el(k), curVPS(k)), el(k), curVPS(k))
+//@   def curSPS(k int) []byte = rec sps0() ; ite(typ(k) == h265.NALUType_SPS_NUT && !beq(el(k), curSPS(k)), el(k), curSPS(k))
+//@   def curPPS(k int) []byte = rec pps0() ; ite(typ(k) == h265.NALUType_PPS_NUT && !beq(el(k), curPPS(k)), el(k), curPPS(k))
+//@   def lastVPS(k int) []byte = rec vps0() ; ite(typ(k) == h265.NALUType_VPS_NUT, el(k), lastVPS(k))
+//@   def lastSPS(k int) []byte = rec sps0() ; ite(typ(k) == h265.NALUType_SPS_NUT, el(k), lastSPS(k))
+//@   def lastPPS(k int) []byte = rec pps0() ; ite(typ(k) == h265.NALUType_PPS_NUT, el(k), lastPPS(k))
+//@   def upd(k int) bool = rec false ; upd(k) || (typ(k) == h265.NALUType_VPS_NUT && !beq(el(k), curVPS(k))) || (typ(k) == h265.NALUType_SPS_NUT && !beq(el(k), curSPS(k))) || (typ(k) == h265.NALUType_PPS_NUT && !beq(el(k), curPPS(k)))
+//@   lemma recent(k int) induction k from 0: beq(curVPS(k), lastVPS(k)) && beq(curSPS(k), lastSPS(k)) && beq(curPPS(k), lastPPS(k))
+//@   lemma unchanged(k int) induction k from 0: !upd(k) ==> curVPS(k) == vps0() && curSPS(k) == sps0() && curPPS(k) == pps0()
+//@   loop 1 invariant 0 <= _i && _i <= len(au) && vps == curVPS(_i) && sps == curSPS(_i) && pps == curPPS(_i) && update == upd(_i)
+//@   assert-call updateOutDesc: upd(len(au)) && beq(vps, lastVPS(len(au))) && beq(sps, lastSPS(len(au))) && beq(pps, lastPPS(len(au)))
+//@   ensures [updates-iff-changed] called(updateOutDesc) == b2i(upd(len(au())))
+//@   ensures [no-update-means-current] !upd(len(au())) ==> beq(vps0(), lastVPS(len(au()))) && beq(sps0(), lastSPS(len(au()))) && beq(pps0(), lastPPS(len(au())))
+
+//@ func formatUpdaterH265$1
+//@   property C22
+//@   ensures formatH265.VPS == old(vps) && formatH265.SPS == old(sps) && formatH265.PPS == old(pps)
